@@ -152,7 +152,7 @@ def run(ctx):
             continue
         files += 1
         usable.append((c, o))
-        fails = file_oracle(o["SolText"], o, bool(c.get("Weight")), build_version)
+        fails = core.declared_vs_read(c, o) or file_oracle(o["SolText"], o, bool(c.get("Weight")), build_version)
         # the reactions printed in the file must balance the loads (C03's oracle on the file's own numbers)
         parsed = parse_sol(o["SolText"])
         if not isinstance(parsed, str):
